@@ -78,6 +78,17 @@ func HIntP(p *int) string {
 	return fmt.Sprint("IntP ", *p-100)
 }
 
+// HSumIs and HCountIs are bool-returning variadic recorders (usable directly as conditions).
+func HSumIs(want int, xs ...int) bool {
+	s := 0
+	for _, x := range xs {
+		s += x
+	}
+	return s == want
+}
+
+func HCountIs(n int, xs ...interface{}) bool { return len(xs) == n }
+
 // Exports returns the symbol table that gives scripts a Show writing into buf.
 func Exports(buf *bytes.Buffer, steps *int) map[string]map[string]reflect.Value {
 	return map[string]map[string]reflect.Value{
@@ -85,6 +96,7 @@ func Exports(buf *bytes.Buffer, steps *int) map[string]map[string]reflect.Value 
 			"Show": reflect.ValueOf(func(a ...interface{}) { *steps++; fmt.Fprintln(buf, a...) }),
 			"HAny": reflect.ValueOf(HAny), "HTwo": reflect.ValueOf(HTwo), "HVar": reflect.ValueOf(HVar), "HInt": reflect.ValueOf(HInt),
 			"HStr": reflect.ValueOf(HStr), "HInts": reflect.ValueOf(HInts), "HErr": reflect.ValueOf(HErr), "HFn": reflect.ValueOf(HFn), "HIntP": reflect.ValueOf(HIntP),
+			"HSumIs": reflect.ValueOf(HSumIs), "HCountIs": reflect.ValueOf(HCountIs),
 		},
 	}
 }
